@@ -939,6 +939,99 @@ pub fn expand<E: Elem>(key: &str, ctx: &mut Ctx, bounds: &Bounds, with_terminals
 }
 
 /// Constructor calls (initial states).
+/// Histories of `depth` actions on ONE live object (no re-materialisation between the steps, so hidden state -
+/// spare capacity, stale bits beyond the length, whatever an operation leaves behind - is carried over): from
+/// the c x r array with distinct labels, the `from..to` slice of the alphabet as first action (exact and spare
+/// capacity), then EVERY action of the alphabet of each state reached, with the C01 / C05 oracle after each step.
+pub fn run_chains<E: Elem>(c: usize, r: usize, from: usize, to: usize, depth: usize, ctx: &mut Ctx) {
+    let labels: Vec<u32> = (0..(c * r) as u32).collect();
+    let copy = !E::TRACKED;
+    let firsts = actions(c, r, copy, true);
+    for a1 in firsts.iter().take(to).skip(from) {
+        for cap in ['x', 's'] {
+            let mut a1 = a1.clone();
+            a1.cap = cap;
+            let mut prefix = vec![a1];
+            chain_rec::<E>(c, r, &labels, &mut prefix, depth, ctx);
+        }
+    }
+}
+
+fn chain_rec<E: Elem>(c: usize, r: usize, labels: &[u32], prefix: &mut Vec<Act>, depth: usize, ctx: &mut Ctx) {
+    let copy = !E::TRACKED;
+    let leaky = |a: &Act| matches!(a.op.as_str(), "lr" | "lc" | "irl" | "icl");
+    let enc = |p: &[Act]| p.iter().map(|a| a.enc()).collect::<Vec<_>>().join(" then ");
+    let leaf = prefix.len() == depth;
+    let mut reached: Option<(usize, usize)> = None;
+    let body = |cs: &mut Case| {
+        cs.transitions = prefix.len() as u64;
+        let mut t: TooDee<E> = materialize(c, r, labels, false);
+        let mut m = model_of(c, r, labels);
+        let mut any_panic = false;
+        let mut last_panicked = false;
+        for (k, a) in prefix.iter().enumerate() {
+            last_panicked = apply(&mut t, &mut m, a, cs);
+            any_panic |= last_panicked;
+            if !check_state(&t, &m, cs, &format!("after {}", enc(&prefix[..=k]))) {
+                std::mem::forget(t);
+                return;
+            }
+        }
+        cs.outcome(if last_panicked { "rejected" } else { "accepted" });
+        if !last_panicked {
+            cs.nontrivial((c, r, prefix.iter().map(|a| (a.op.clone(), a.a.clone(), a.cap)).collect::<Vec<_>>()));
+        }
+        ledger_clean::<E>(cs, &format!("after {}", enc(prefix)), (m.cols * m.rows) as u64, !any_panic && !prefix.iter().any(leaky));
+        reached = Some((m.cols, m.rows));
+    };
+    let desc = || format!("{}x{} array, on one object: {}", c, r, enc(prefix));
+    if leaf {
+        ctx.case(desc, body);
+        return;
+    }
+    ctx.pilot_case(desc, body);
+    let Some((c2, r2)) = reached else { return };
+    if c2 * r2 > 9 {
+        return;
+    }
+    for a in actions(c2, r2, copy, true) {
+        prefix.push(a);
+        chain_rec::<E>(c, r, labels, prefix, depth, ctx);
+        prefix.pop();
+    }
+}
+
+/// Units for `run_chains`: "extra:chain:<tag>:CxR:from:to".
+pub fn chain_units(tag: char, copy: bool, tier: Tier) -> Vec<String> {
+    let mut v = Vec::new();
+    // depth 2 from every shape up to 3x2 / 2x3; thorough: additionally depth 3 from the shapes up to 2x2
+    let mut plans: Vec<(usize, usize, usize)> = [(0usize, 0usize), (1, 1), (2, 1), (1, 2), (2, 2), (3, 1), (1, 3), (3, 2), (2, 3)].iter().map(|&(c, r)| (c, r, 2)).collect();
+    if tier == Tier::Thorough {
+        plans.extend([(0usize, 0usize, 3usize), (1, 1, 3), (2, 1, 3), (1, 2, 3), (2, 2, 3)]);
+    }
+    for (c, r, depth) in plans {
+        let n = actions(c, r, copy, true).len();
+        let chunk = if depth == 2 { 8 } else { 1 };
+        let mut i = 0;
+        while i < n {
+            v.push(format!("extra:chain:{}:{}x{}:{}:{}:{}", tag, c, r, i, (i + chunk).min(n), depth));
+            i += chunk;
+        }
+    }
+    v
+}
+pub fn run_chain_unit(unit: &str, ctx: &mut Ctx) {
+    let p: Vec<&str> = unit.split(':').collect();
+    let (c, r) = p[3].split_once('x').unwrap();
+    let (c, r): (usize, usize) = (c.parse().unwrap(), r.parse().unwrap());
+    let (from, to, depth): (usize, usize, usize) = (p[4].parse().unwrap(), p[5].parse().unwrap(), p[6].parse().unwrap());
+    match p[2] {
+        "U" => run_chains::<u32>(c, r, from, to, depth, ctx),
+        "T" => run_chains::<Tracked>(c, r, from, to, depth, ctx),
+        _ => run_chains::<TrackedZst>(c, r, from, to, depth, ctx),
+    }
+}
+
 pub fn init_units(tag: char, b: &Bounds) -> Vec<String> {
     let mut v = Vec::new();
     let n = b.dim;
